@@ -14,51 +14,65 @@ theorem Pres.refl (p : Param) : Pres p p := ⟨rfl, rfl, fun _ h _ => h⟩
 theorem Pres.trans {p q r : Param} (h1 : Pres p q) (h2 : Pres q r) : Pres p r :=
   ⟨h2.1.trans h1.1, h2.2.1.trans h1.2.1, fun v hv hn => h2.2.2 v (h1.2.2 v hv hn) hn⟩
 
-theorem pres_class (p : Param) : Pres p (normClassParam p) := by
-  unfold normClassParam
-  cases hd : p.default with
-  | none =>
-    cases ht : p.typ <;> exact ⟨rfl, by simp [ht], fun v hv _ => by simp [hd] at hv⟩
+theorem classFill_doc (p : Param) : (classFill p).doc = p.doc := by
+  unfold classFill; cases p.typ <;> rfl
+theorem classFill_typ (p : Param) : (classFill p).typ = p.typ := by
+  unfold classFill; cases h : p.typ <;> simp
+theorem argFill_doc (t : Str) (p : Param) : (argFill t p).doc = p.doc := by
+  unfold argFill; split
+  · rfl
+  · split
+    · rfl
+    · split <;> rfl
+theorem argFill_typ (t : Str) (p : Param) : (argFill t p).typ = p.typ := by
+  unfold argFill; split
+  · rfl
+  · split
+    · rfl
+    · split <;> rfl
+
+/-- a function that leaves an entry alone unless its default is absent or none-like, and then only
+    touches the default, preserves the entry -/
+theorem pres_of_fill (f : Param → Param) (p : Param) (hd : (f p).doc = p.doc) (ht : (f p).typ = p.typ) :
+    Pres p (match p.default with | some v => if isNoneVal v then f p else p | none => f p) := by
+  cases h : p.default with
+  | none => exact ⟨hd, ht, fun v hv _ => by rw [h] at hv; cases hv⟩
   | some v =>
     by_cases hn : isNoneVal v = true
     · simp only [hn, if_true]
-      refine ⟨rfl, rfl, fun w hw hwn => ?_⟩
-      rw [hd] at hw; cases hw; rw [hn] at hwn; cases hwn
+      refine ⟨hd, ht, fun w hw hwn => ?_⟩
+      rw [h] at hw
+      cases hw; rw [hn] at hwn; cases hwn
     · simp only [hn, Bool.false_eq_true, if_false]
       exact ⟨rfl, rfl, fun w hw _ => hw⟩
 
-theorem pres_func (p : Param) : Pres p (normFuncParam p) := by
-  unfold normFuncParam
-  cases hd : p.default with
-  | none => exact ⟨rfl, rfl, fun v hv _ => by simp [hd] at hv⟩
-  | some v =>
-    by_cases hn : isNoneVal v = true
-    · simp only [hn, if_true]
-      refine ⟨rfl, rfl, fun w hw hwn => ?_⟩
-      rw [hd] at hw; cases hw; rw [hn] at hwn; cases hwn
-    · simp only [hn, Bool.false_eq_true, if_false]
-      exact ⟨rfl, rfl, fun w hw _ => hw⟩
+theorem pres_class (p : Param) : Pres p (normClassParam p) :=
+  pres_of_fill classFill p (classFill_doc p) (classFill_typ p)
+
+theorem pres_func (p : Param) : Pres p (normFuncParam p) :=
+  pres_of_fill (fun q => { q with default := some vNoneStr }) p rfl rfl
 
 theorem pres_argparse (p : Param) : Pres p (normArgparseParam p) := by
   unfold normArgparseParam
   cases ht : p.typ with
   | none => exact Pres.refl p
-  | some t =>
-    cases hd : p.default with
-    | none =>
-      simp only
-      refine ⟨?_, ?_, fun v hv _ => by simp [hd] at hv⟩ <;>
-        (split <;> (try rfl) <;> (try simp [ht]) <;> (split <;> (try rfl) <;> (try simp [ht]) <;> (split <;> simp [ht])))
-    | some v =>
-      simp only
-      by_cases hn : isNoneVal v = true
-      · simp only [hn, if_true]
-        refine ⟨?_, ?_, fun w hw hwn => ?_⟩
-        · split <;> rfl
-        · split <;> simp [ht]
-        · rw [hd] at hw; cases hw; rw [hn] at hwn; cases hwn
-      · simp only [hn, Bool.false_eq_true, if_false]
-        exact ⟨rfl, ht.symm ▸ rfl, fun w hw _ => by rw [hd] at hw ⊢; exact hw⟩
+  | some t => exact pres_of_fill (argFill t) p (argFill_doc t p) (argFill_typ t p)
+
+theorem pres_doc (st : DocStyle) (n : Str) (p : Param) : Pres p (normDocEntry st n p) := by
+  unfold normDocEntry
+  cases hd : p.default with
+  | none =>
+    simp only
+    split
+    · exact ⟨rfl, rfl, fun v hv _ => by simp [hd] at hv⟩
+    · exact Pres.refl p
+  | some v =>
+    by_cases hn : isNoneVal v = true
+    · simp only [hn, if_true]
+      refine ⟨rfl, rfl, fun w hw hwn => ?_⟩
+      rw [hd] at hw; cases hw; rw [hn] at hwn; cases hwn
+    · simp only [hn, Bool.false_eq_true, if_false]
+      exact ⟨rfl, rfl, fun w hw _ => hw⟩
 
 /-! ### lists of entries: same names in the same order, each entry preserved -/
 
@@ -86,6 +100,11 @@ theorem PresList.keys : ∀ {a b : ODict Param}, PresList a b → a.map (·.1) =
     simp only [List.map_cons, h.1, PresList.keys h.2.2]
   | [], _ :: _, h => h.elim
   | _ :: _, [], h => h.elim
+
+theorem presList_mapKey (f : Str → Param → Param) (hf : ∀ n p, Pres p (f n p)) :
+    ∀ l : ODict Param, PresList l (l.map fun kp => (kp.1, f kp.1 kp.2))
+  | [] => trivial
+  | (k, p) :: r => ⟨rfl, hf k p, presList_mapKey f hf r⟩
 
 theorem presList_map (f : Param → Param) (hf : ∀ p, Pres p (f p)) : ∀ l, PresList l (mapParams f l)
   | [] => trivial
@@ -140,6 +159,12 @@ theorem norm_pres (k : Kind) (ir : IR) : PresIR ir (norm k ir) := by
       by_cases hd : r.default.isSome = true
       · simp only [hd, if_true]; exact Or.inr ⟨r, r, rfl, rfl, Pres.refl r⟩
       · simp only [hd, Bool.false_eq_true, if_false]; exact Or.inl trivial
+  | doc st =>
+    refine ⟨rfl, presList_mapKey _ (pres_doc st) _, ?_⟩
+    simp only [norm]
+    cases h : ir.returns with
+    | none => exact Or.inl rfl
+    | some r => exact Or.inr ⟨r, normDocEntry st [] r, rfl, rfl, pres_doc st [] r⟩
 
 /-- **C05**: a chain of conversions of ANY length through ANY kinds preserves the interface in the
     sense of `PresIR` (names, order, prose, types, explicit defaults; nothing invented or swapped
@@ -150,23 +175,84 @@ theorem chain_pres : ∀ (ks : List Kind) (ir : IR), PresIR ir (ks.foldl (fun a 
     simp only [List.foldl_cons]
     exact (norm_pres k ir).trans (chain_pres ks (norm k ir))
 
+/-- the executable chain (with its domain checks) is the fold of the norms, so `chain_pres` applies -/
+theorem chain_eq_fold : ∀ (ks : List Kind) (ir out : IR), chain ks ir = some out →
+    out = ks.foldl (fun a k => norm k a) ir
+  | [], ir, out, h => by simp [chain] at h; exact h.symm
+  | k :: ks, ir, out, h => by
+    simp only [chain] at h
+    split at h
+    · simp only [List.foldl_cons]; exact chain_eq_fold ks _ out h
+    · cases h
+
+theorem chain_ok_pres (ks : List Kind) (ir out : IR) (h : chain ks ir = some out) : PresIR ir out := by
+  rw [chain_eq_fold ks ir out h]; exact chain_pres ks ir
+
 theorem chain_names (ks : List Kind) (ir : IR) :
     (ks.foldl (fun a k => norm k a) ir).params.map (·.1) = ir.params.map (·.1) :=
   (PresList.keys (chain_pres ks ir).params).symm
 
 /-! ### C08: one normalising pass -/
 
+theorem isNoneVal_zeroOf (t : Str) : isNoneVal (zeroOf t) = false := by
+  unfold zeroOf
+  split
+  · rfl
+  · split
+    · rfl
+    · split
+      · rfl
+      · decide
+
+theorem isNoneVal_vNoneStr : isNoneVal vNoneStr = true := by decide
+
+theorem classFill_idem (p : Param) : classFill (classFill p) = classFill p := by
+  unfold classFill
+  cases h : p.typ with
+  | none => rfl
+  | some t => simp
+
+theorem normClassParam_fill (p : Param) : normClassParam (classFill p) = classFill p := by
+  cases ht : p.typ with
+  | none =>
+    have hd : (classFill p).default = some vNoneStr := by unfold classFill; rw [ht]
+    unfold normClassParam; rw [hd]
+    simp only [isNoneVal_vNoneStr, if_true]
+    exact classFill_idem p
+  | some t =>
+    by_cases hs : isScalar t = true
+    · have hd : (classFill p).default = some (zeroOf t) := by unfold classFill; rw [ht]; simp [hs]
+      unfold normClassParam; rw [hd]
+      simp only [isNoneVal_zeroOf, Bool.false_eq_true, if_false]
+    · have hd : (classFill p).default = some vNoneStr := by unfold classFill; rw [ht]; simp [hs]
+      unfold normClassParam; rw [hd]
+      simp only [isNoneVal_vNoneStr, if_true]
+      exact classFill_idem p
+
 theorem normClassParam_idem (p : Param) : normClassParam (normClassParam p) = normClassParam p := by
-  unfold normClassParam
   cases hd : p.default with
-  | none => cases ht : p.typ <;> simp [isNoneVal, zeroOf] <;> (repeat' split) <;> simp_all [isNoneVal]
-  | some v => cases v <;> simp [isNoneVal, hd]
+  | none =>
+    have : normClassParam p = classFill p := by unfold normClassParam; rw [hd]
+    rw [this]; exact normClassParam_fill p
+  | some v =>
+    by_cases hn : isNoneVal v = true
+    · have : normClassParam p = classFill p := by unfold normClassParam; rw [hd]; simp [hn]
+      rw [this]; exact normClassParam_fill p
+    · have : normClassParam p = p := by unfold normClassParam; rw [hd]; simp [hn]
+      rw [this, this]
 
 theorem normFuncParam_idem (p : Param) : normFuncParam (normFuncParam p) = normFuncParam p := by
-  unfold normFuncParam
   cases hd : p.default with
-  | none => simp [isNoneVal]
-  | some v => cases v <;> simp [isNoneVal, hd]
+  | none =>
+    have : normFuncParam p = { p with default := some vNoneStr } := by unfold normFuncParam; rw [hd]
+    rw [this]; unfold normFuncParam; simp [isNoneVal_vNoneStr]
+  | some v =>
+    by_cases hn : isNoneVal v = true
+    · have : normFuncParam p = { p with default := some vNoneStr } := by
+        unfold normFuncParam; rw [hd]; simp [hn]
+      rw [this]; unfold normFuncParam; simp [isNoneVal_vNoneStr]
+    · have : normFuncParam p = p := by unfold normFuncParam; rw [hd]; simp [hn]
+      rw [this, this]
 
 theorem mapParams_idem (f : Param → Param) (hf : ∀ p, f (f p) = f p) (l : ODict Param) :
     mapParams f (mapParams f l) = mapParams f l := by
